@@ -236,44 +236,54 @@ inductive LexError where
   | eofInTag (start : Nat)
   deriving Repr, DecidableEq
 
-/-- One iteration of `for match in rules.finditer(source)`: new locals and the tokens yielded. -/
-def step (st : LexState) (m : Match) : Except LexError (LexState × List Token) :=
-  if st.depth ≠ 0 then
-    -- if comment_depth:
-    if m.kind = .TAG then
-      if m.name = kwEndcomment then
-        let depth := st.depth - 1
-        if depth = 0 then
-          .ok ({ lstrip := m.rst, commentIndex := 0, commentText := [], depth := 0 },
-               [⟨.comment, st.commentText, st.commentIndex⟩, ⟨.tag, m.name, m.nameStart⟩])
-        else
-          .ok ({ st with depth := depth, commentText := st.commentText ++ m.value }, [])
-      else if m.name = kwComment then
-        .ok ({ st with depth := st.depth + 1, commentText := st.commentText ++ m.value }, [])
+/-- whitespace control applied to a text: `a` = `value.lstrip()`, then `b` = `value.rstrip()` -/
+def applyStrip (a b : Bool) (s : Str) : Str :=
+  let v1 := if a then lstrip s else s
+  if b then rstrip v1 else v1
+
+/-- the `if comment_depth:` block: everything is collected as comment text until the matching `endcomment` -/
+def stepComment (st : LexState) (m : Match) : Except LexError (LexState × List Token) :=
+  if m.kind = .TAG then
+    if m.name = kwEndcomment then
+      if st.depth - 1 = 0 then
+        .ok ({ lstrip := m.rst, commentIndex := 0, commentText := [], depth := 0 },
+             [⟨.comment, st.commentText, st.commentIndex⟩, ⟨.tag, m.name, m.nameStart⟩])
       else
-        .ok ({ st with commentText := st.commentText ++ m.value }, [])
+        .ok ({ st with depth := st.depth - 1, commentText := st.commentText ++ m.value }, [])
+    else if m.name = kwComment then
+      .ok ({ st with depth := st.depth + 1, commentText := st.commentText ++ m.value }, [])
     else
       .ok ({ st with commentText := st.commentText ++ m.value }, [])
   else
-    match m.kind with
-    | .OUTPUT =>
-      .ok ({ st with lstrip := m.rss }, [⟨.output, m.value, m.start⟩, ⟨.expression, m.stmt, m.stmtStart⟩])
-    | .TAG =>
-      let toks := ⟨.tag, m.name, m.nameStart⟩ :: (if m.expr ≠ [] then [⟨.expression, m.expr, m.exprStart⟩] else [])
-      if m.name = kwComment then
-        .ok ({ st with lstrip := m.rst, commentIndex := m.stop, depth := 1 }, toks)
-      else
-        .ok ({ st with lstrip := m.rst }, toks)
-    | .COMMENT => .ok ({ st with lstrip := m.rsc }, [⟨.shortComment, m.comment, m.start⟩])
-    | .RAW => .ok ({ st with lstrip := m.rsr_e }, [⟨.content, m.raw, m.start⟩])
-    | .DOC => .ok ({ st with lstrip := m.rsd }, [⟨.doc, m.doc, m.start⟩])
-    | .CONTENT =>
-      let v1 := if st.lstrip then lstrip m.value else m.value
-      let v2 := if m.rstrip then rstrip v1 else v1
-      if v2 = [] then .ok (st, [])
-      else if startsWith ['{', '{'] v2 then .error (.eofInOutput m.start)
-      else if startsWith ['{', '%'] v2 then .error (.eofInTag m.start)
-      else .ok (st, [⟨.content, v2, m.start⟩])
+    .ok ({ st with commentText := st.commentText ++ m.value }, [])
+
+/-- the `elif kind == TOKEN_CONTENT:` branch -/
+def stepContent (st : LexState) (m : Match) : Except LexError (LexState × List Token) :=
+  let v := applyStrip st.lstrip m.rstrip m.value
+  if v = [] then .ok (st, [])
+  else if startsWith ['{', '{'] v then .error (.eofInOutput m.start)
+  else if startsWith ['{', '%'] v then .error (.eofInTag m.start)
+  else .ok (st, [⟨.content, v, m.start⟩])
+
+/-- the branches taken outside a block comment -/
+def stepTop (st : LexState) (m : Match) : Except LexError (LexState × List Token) :=
+  match m.kind with
+  | .OUTPUT =>
+    .ok ({ st with lstrip := m.rss }, [⟨.output, m.value, m.start⟩, ⟨.expression, m.stmt, m.stmtStart⟩])
+  | .TAG =>
+    let toks := ⟨.tag, m.name, m.nameStart⟩ :: (if m.expr = [] then [] else [⟨.expression, m.expr, m.exprStart⟩])
+    if m.name = kwComment then
+      .ok ({ st with lstrip := m.rst, commentIndex := m.stop, depth := 1 }, toks)
+    else
+      .ok ({ st with lstrip := m.rst }, toks)
+  | .COMMENT => .ok ({ st with lstrip := m.rsc }, [⟨.shortComment, m.comment, m.start⟩])
+  | .RAW => .ok ({ st with lstrip := m.rsr_e }, [⟨.content, m.raw, m.start⟩])
+  | .DOC => .ok ({ st with lstrip := m.rsd }, [⟨.doc, m.doc, m.start⟩])
+  | .CONTENT => stepContent st m
+
+/-- One iteration of `for match in rules.finditer(source)`: new locals and the tokens yielded. -/
+def step (st : LexState) (m : Match) : Except LexError (LexState × List Token) :=
+  if st.depth ≠ 0 then stepComment st m else stepTop st m
 
 /-- the whole generator, run to completion (`list(_tokenize_template(source, rules))`) -/
 def tokenize : LexState → List Match → Except LexError (List Token)
